@@ -182,6 +182,33 @@ def c10_history_value(case=0, cls="Selector"):
     return {"violates": not ok, "detail": None if ok else f"{expr!r}: the record {v2} matched after {v1} gives {got}, its own values give {want}"}
 
 
+def c10_history_grouped(cls="Selector", order="ab then cd"):
+    from flow.record import GroupedRecord, RecordDescriptor
+    from flow.record import selector as S
+
+    mk = lambda tn, fn: RecordDescriptor(tn, [("string", fn)])(**{fn: "v"})
+    g_ab = GroupedRecord("c10/grp", [mk("c10/ma", "x"), mk("c10/mb", "y")])
+    g_cd = GroupedRecord("c10/grp", [mk("c10/mc", "x"), mk("c10/md", "y")])
+    s1 = getattr(S, cls)('"c10/ma" in names(r)')
+    seq = [g_ab, g_cd] if order.startswith("ab") else [g_cd, g_ab]
+    out = {}
+    for g in seq + seq:
+        out.setdefault("ab" if g is g_ab else "cd", []).append(_safe_match(s1, g))
+    ok = out == {"ab": [True, True], "cd": [False, False]}
+    return {"violates": not ok, "detail": None if ok else f"'\"c10/ma\" in names(r)' over two grouped records of one group name ({order}): {out}"}
+
+
+def c10_frame_list(expr, cls="Selector"):
+    from flow.record import RecordDescriptor
+    from flow.record import selector as S
+
+    rec = RecordDescriptor("c10/tags", [("string", "s"), ("string[]", "tags"), ("stringlist", "sl")])(s="root", tags=["Wheel", "ROOT", "adm"], sl=["Mixed", "CASE"])
+    _safe_match(getattr(S, cls)(expr), rec)
+    got = (list(rec.tags), list(rec.sl))
+    ok = got == (["Wheel", "ROOT", "adm"], ["Mixed", "CASE"])
+    return {"violates": not ok, "detail": None if ok else f"after matching {expr!r} the record's list fields hold {got}"}
+
+
 def c10_frame(expr, cls="Selector"):
     from flow.record import selector as S
 
@@ -267,4 +294,4 @@ def c10_model_conformance():
     return {"ok": True, "cases": 3, "violates": False}
 
 
-CALLS = {"c10_history_value": c10_history_value, "c10_equiv": c10_equiv, "c10_sweep": c10_sweep, "c10_reader": c10_reader, "c10_history": c10_history, "c10_frame": c10_frame, "c10_make": c10_make, "c10_model_conformance": c10_model_conformance}
+CALLS = {"c10_history_grouped": c10_history_grouped, "c10_frame_list": c10_frame_list, "c10_history_value": c10_history_value, "c10_equiv": c10_equiv, "c10_sweep": c10_sweep, "c10_reader": c10_reader, "c10_history": c10_history, "c10_frame": c10_frame, "c10_make": c10_make, "c10_model_conformance": c10_model_conformance}
